@@ -14,6 +14,6 @@ git apply $D/patch.diff || { git -C /repo worktree remove --force $W; exit 9; }
 /venv/bin/python $D/demo.py >/dev/null 2>&1; echo "demo on seeded tree: exit $?"
 if [ -z "$MATRIX" ]; then /venv/bin/python -m pytest -q -p no:cacheprovider --timeout=900 --continue-on-collection-errors 2>&1 | tail -1; fi
 cd /verif && POX_REPO=$W VERIF_EVIDENCE_DIR=/tmp/wt/ev-$S ./check "$P" --tier "$T" "$@" > /tmp/wt/try-$S.out 2>&1; RC=$?
-grep -E "^(VIOLATION|INCONCLUSIVE|ENGINE-ERROR|KNOWN)" /tmp/wt/try-$S.out | cut -c1-300 | head -4; grep ' tier=' /tmp/wt/try-$S.out
+grep -E "^VIOLATION" /tmp/wt/try-$S.out | cut -c1-300 | head -4; grep -E "^(INCONCLUSIVE|ENGINE-ERROR|KNOWN)" /tmp/wt/try-$S.out | cut -c1-300 | head -3; grep ' tier=' /tmp/wt/try-$S.out
 echo "check exit $RC"
 git -C /repo worktree remove --force $W; rm -rf /tmp/wt/ev-$S
